@@ -69,6 +69,8 @@ Forms2 == {Cx2(<<[k |-> "first-of-type"]>>, ">", <<TypeS(NsA, E)>>), Cx2(<<[k |-
 \* value operators under *|: some attribute of that local name has the value, whatever the order of the attributes
 AttrV(ns, op, v) == [k |-> "attr", ns |-> ns, name |-> A, op |-> op, val |-> v, flag |-> "n"]
 Forms3 == {Cx1(<<AttrV(ns, op, v)>>) : ns \in {NsA, NsB, NsP(Q)}, op \in {"eq", "ne", "pre"}, v \in {X, Y}}
+    \* != under a subject that is NOT confined to the default namespace: the negation is about the attribute only
+    \cup {Cx1(<<TypeS(tns, nm), AttrV(NsB, "ne", v)>>) : tns \in {NsA, NsP(P)}, nm \in {Star, E}, v \in {X, Y}}
 PoolSet == {[sel |-> <<f>>, ns |-> m] : f \in Forms \cup Forms2 \cup Forms3, m \in Maps}
 Pool == SetToSeq(PoolSet)
 ASSUME PrintT(ToJson([pool |-> Pool]))
